@@ -573,6 +573,14 @@ fn failed_step_expected(s: &Session, st: &Step, initial: bool) -> bool {
     !expected_verdict(&s.bytes_of(&st.input), &st.plan, st.cfg, initial).is_ok()
 }
 
+/// For C01 / C03 / C09: a delivery whose stream was at fault (independent verdict) but which returned Ok has put
+/// something into the tree that no supplied document accounts for. Whether that is acceptable is C08's and
+/// C06's question; for the schema properties the replica has simply left the model and is not judged further.
+fn leaves_model(s: &Session, st: &Step, so: &crate::session::StepOut, initial: bool) -> bool {
+    let suspicious = matches!(st.input, Input::Raw(_)) || st.plan.fault != Fault::None;
+    suspicious && so.ok && failed_step_expected(s, st, initial)
+}
+
 // ---------------------------------------------------------------------------------------------
 
 pub struct C03;
@@ -613,8 +621,17 @@ impl Prop for C03 {
             let delivered = delivered_after(s, r, o);
             for (si, so) in o.steps.iter().enumerate() {
                 if let Some(p) = &so.panic {
+                    if matches!(r.steps[si].input, Input::Raw(_)) || r.steps[si].plan.fault != Fault::None {
+                        // a panic on damaged bytes or under a hard fault is C07's subject; this replica is just lost
+                        bump(ctr, "replica_abandoned_after_panic_on_damaged_input");
+                        break;
+                    }
                     violation = Some(Violation { class: "panic".into(), detail: p.clone() });
                     break 'outer;
+                }
+                if leaves_model(s, &r.steps[si], so, si == 0 || !o.steps[si - 1].has_tree) {
+                    bump(ctr, "replica_abandoned_after_unexpected_ok");
+                    break;
                 }
                 if !so.ok {
                     bump(ctr, "fault.delivery_failed");
@@ -691,8 +708,17 @@ impl Prop for C01 {
             let delivered = delivered_after(s, r, o);
             for (si, so) in o.steps.iter().enumerate() {
                 if let Some(p) = &so.panic {
+                    if matches!(r.steps[si].input, Input::Raw(_)) || r.steps[si].plan.fault != Fault::None {
+                        // a panic on damaged bytes or under a hard fault is C07's subject; this replica is just lost
+                        bump(ctr, "replica_abandoned_after_panic_on_damaged_input");
+                        break;
+                    }
                     violation = Some(Violation { class: "panic".into(), detail: p.clone() });
                     break 'outer;
+                }
+                if leaves_model(s, &r.steps[si], so, si == 0 || !o.steps[si - 1].has_tree) {
+                    bump(ctr, "replica_abandoned_after_unexpected_ok");
+                    break;
                 }
                 if !so.ok || delivered[si].is_empty() {
                     continue;
@@ -777,8 +803,17 @@ impl Prop for C09 {
             let delivered = delivered_after(s, r, o);
             for (si, so) in o.steps.iter().enumerate() {
                 if let Some(p) = &so.panic {
+                    if matches!(r.steps[si].input, Input::Raw(_)) || r.steps[si].plan.fault != Fault::None {
+                        // a panic on damaged bytes or under a hard fault is C07's subject; this replica is just lost
+                        bump(ctr, "replica_abandoned_after_panic_on_damaged_input");
+                        break;
+                    }
                     violation = Some(Violation { class: "panic".into(), detail: p.clone() });
                     break 'outer;
+                }
+                if leaves_model(s, &r.steps[si], so, si == 0 || !o.steps[si - 1].has_tree) {
+                    bump(ctr, "replica_abandoned_after_unexpected_ok");
+                    break;
                 }
                 if !so.ok {
                     continue;
